@@ -165,8 +165,10 @@ call seen: the maintainer was found ready and authorised (through the configured
 query) earlier in the current session; the headers are exactly those of the window of
 `(the CurrentEpoch answer of this round) + 1` with this round's `ProofLength` answer; this
 round's chain height reached the end of the window; the submission goes through the configured
-contract; and nothing is submitted twice in one height/epoch/length round (an epoch is only
-submitted again after the relay was asked again). -/
+contract; nothing is submitted twice in one height/epoch/length round; and after a submission
+for epoch `E` the session starts its next round (hence any further submission) only after a
+`CurrentEpoch` answer `≥ E` was observed (each epoch is submitted at most once per observed relay
+epoch; a failed submission ends the session, the next session starts with `Ready`). -/
 
 structure MonState where
   eligible : Bool := false
@@ -176,8 +178,15 @@ structure MonState where
   L : Option Nat := none
   /-- number of `epoch` events since the last `height` event. -/
   k : Nat := 0
+  /-- epoch submitted in this session whose confirmation by the relay is still awaited. -/
+  pending : Option Nat := none
   ok : Bool := true
   deriving Repr
+
+/-- a `CurrentEpoch` poll answer `x ≥ E` ends the wait for epoch `E`. -/
+def clearPending : Option Nat → Option Nat → Option Nat
+  | some E, some x => if x ≥ E then none else some E
+  | p, _ => p
 
 def submitGood (dp : Bool) (s : MonState) (refund : Bool) (first count : Nat) : Bool :=
   match s.h, s.ce, s.L with
@@ -190,17 +199,22 @@ def submitGood (dp : Bool) (s : MonState) (refund : Bool) (first count : Nat) : 
 def monStep (dp : Bool) (s : MonState) (e : Ev) : MonState :=
   match e with
   | .ready a =>
-    { s with readyOk := decide (a = .t), eligible := false, h := none, ce := none, L := none, k := 0 }
+    { s with readyOk := decide (a = .t), eligible := false, h := none, ce := none, L := none, k := 0,
+             pending := none }
   | .auth a =>
     { s with eligible := s.readyOk && decide (a = .t), ok := s.ok && dp }
   | .authRefund a =>
     { s with eligible := s.readyOk && decide (a = .t), ok := s.ok && !dp }
-  | .height v => { s with h := v, ce := none, L := none, k := 0 }
-  | .epoch v => if s.k = 0 then { s with ce := v, k := 1 } else { s with k := s.k + 1 }
+  | .height v =>
+    -- moving on to the next round is allowed only after the relay reported the submitted epoch
+    { s with h := v, ce := none, L := none, k := 0, ok := s.ok && s.pending.isNone }
+  | .epoch v =>
+    if s.k = 0 then { s with ce := v, k := 1 }
+    else { s with k := s.k + 1, pending := clearPending s.pending v }
   | .len v => { s with L := v }
   | .fetch _ _ => s
   | .submit refund first count =>
-    { s with ok := s.ok && submitGood dp s refund first count, h := none }
+    { s with ok := s.ok && submitGood dp s refund first count, h := none, pending := s.ce.map target }
 
 def run (dp : Bool) (s : MonState) (evs : List Ev) : MonState := evs.foldl (monStep dp) s
 
